@@ -8,6 +8,7 @@ func main() {
 		"delta": deltaMode,
 		"probe": probeMode,
 		"sharedpoll": sharedPollMode,
+		"spfree":     sharedPollFreeMode,
 		"mapdelta":   mapDeltaMode,
 	})
 }
